@@ -206,6 +206,15 @@ def run_case(case, ctx):
         ctx.check(float(res["SYNC"][1]) == 1.0, "identity:SYNC",
                   lambda: "spike_sync(a,a)=%r interval=%r" % (res["SYNC"][1],
                                                               case["interval"]))
+        for nm, fnm, kws, want in (
+                ("isi_distance_matrix", pyspike.isi_distance_matrix, M.kwargs_for("ISI", case), 0.0),
+                ("spike_distance_matrix", pyspike.spike_distance_matrix,
+                 M.kwargs_for("SPIKE", case), 0.0),
+                ("spike_sync_matrix", pyspike.spike_sync_matrix, M.kwargs_for("SYNC", case), 1.0)):
+            mx = np.asarray(ctx.call(nm, fnm, [st1, st2], **ivk, **kws))
+            ctx.check(mx.shape == (2, 2) and abs(float(mx[0, 1]) - want) <= SLACK
+                      and abs(float(mx[1, 0]) - want) <= SLACK, "identity:" + nm,
+                      lambda: "%s of a train and its equal copy: %r" % (nm, mx.tolist()))
         du = ctx.call("directionality_unnorm", pyspike.spike_directionality, st1, st2,
                       normalize=False, **kwo)
         ctx.check(float(du) == 0.0, "identity:directionality",
